@@ -145,6 +145,11 @@ def run_s2c(prop, tier, seed, opts):
             V.tlc_ok(res, st["module"] + "/" + st["cfg"][tier])
             if res["emitted"] == 0:
                 raise V.Broken("stage %s emitted no cases" % st["name"])
+            if st.get("transform"):
+                with open(res["cases"]) as f:
+                    tl = st["transform"](f.readlines(), seed, tier)
+                with open(res["cases"], "w") as f:
+                    f.writelines(tl)
             total_states += res["states"]
             total_distinct += res["distinct"]
             obs_path = scratch.path("obs-%s.ndjson" % st["name"]) if st.get("trace") else None
